@@ -24,6 +24,11 @@ mod sup;
 mod view;
 #[path = "c01_faults/wrap.rs"]
 mod wrap;
+#[path = "c01_faults/synth.rs"]
+mod synth;
+#[path = "c01_faults/cffw.rs"]
+#[allow(dead_code)]
+mod cffw;
 
 #[global_allocator]
 static ALLOC: sup::Budgeted = sup::Budgeted;
@@ -75,6 +80,8 @@ enum Make {
     Woff2Of(String),
     /// the font with the glyph `A` rewritten as an accented character ("seac" endchar)
     SeacOf(String),
+    /// a font written by the harness (c01_faults/synth.rs), a function of its name
+    Synth(String),
 }
 
 #[derive(Clone, Debug)]
@@ -117,6 +124,7 @@ fn file_bytes(m: &Make) -> Option<Vec<u8>> {
             Some(wrap::build_woff2_null(ver, &t))
         }
         Make::SeacOf(r) => wrap::seac_variant(&std::fs::read(abs(r)).ok()?),
+        Make::Synth(n) => synth::build(n),
         _ => None,
     }
 }
@@ -192,6 +200,10 @@ fn input_specs(tier: &str, seed: u64) -> Vec<InputSpec> {
     }
     // a CFF font with an accented character built by the four-argument endchar: no repository font has one
     out.push(InputSpec { name: "seac(fonts/opentype/SourceCodePro-Regular.otf)".to_string(), make: Make::SeacOf("fonts/opentype/SourceCodePro-Regular.otf".to_string()) });
+    // synthesized champions: the table kinds and sub-formats the repository covers thinly or not at all
+    for n in synth::NAMES {
+        out.push(InputSpec { name: n.to_string(), make: Make::Synth(n.to_string()) });
+    }
     aots.sort();
     let keep = if tier == "quick" { 40 } else { aots.len() };
     let mut scored: Vec<(u64, String)> = aots.into_iter().map(|r| (h(&[seed, hs(&r), 0xA075]), r)).collect();
@@ -284,7 +296,7 @@ fn analyse(input: &Input) -> Analysis {
         ranges.dedup();
         for (o, wd) in extra {
             if let Some((s, l, tag)) = ranges.iter().find(|(s, l, _)| o >= *s && o + wd as usize <= s + l) {
-                fields.push(Field { off: o, w: wd, role: "value", level: "table", tbl: tag.clone(), name: "hook".to_string(), tstart: *s, tlen: *l, selfv: -1, parentv: -1, prevo: -1, nexto: -1 });
+                fields.push(Field { off: o, w: wd, role: "value", level: "table", tbl: tag.clone(), name: "hook".to_string(), tstart: *s, tlen: *l, selfv: -1, parentv: -1, prevo: -1, nexto: -1, dv: -1 });
             }
         }
     }
@@ -437,8 +449,24 @@ fn champions(analyses: &[(String, usize, Analysis)]) -> BTreeMap<usize, Champ> {
             }
         }
     }
-    for (tbl, inputs) in per {
+    // the synthesized inputs stand for their table kinds with everything the walk finds in them
+    let mut forced: BTreeMap<String, BTreeSet<String>> = BTreeMap::new();
+    for (tbl, inputs) in &per {
+        for (i, names) in inputs {
+            let name = &analyses[*i].0;
+            if synth::focus(name).contains(&tbl.as_str()) {
+                out.entry(*i).or_default().insert(tbl.clone(), names.clone());
+                forced.entry(tbl.clone()).or_default().extend(names.iter().cloned());
+            }
+        }
+    }
+    for (tbl, mut inputs) in per {
+        // the other table kinds of a synthesized input are left to the repository fonts
+        inputs.retain(|i, _| !analyses[*i].0.starts_with("synth/"));
         let mut todo: BTreeSet<String> = inputs.values().flatten().cloned().collect();
+        if let Some(f) = forced.get(&tbl) {
+            todo.retain(|n| !f.contains(n));
+        }
         while !todo.is_empty() {
             let best = inputs
                 .iter()
@@ -509,6 +537,11 @@ impl<'a> Planner<'a> {
         }
         if a.k == "Overwrite" && faults::is_ref_class(&a.vc) {
             let c: Vec<usize> = c.into_iter().filter(|&i| faults::has_ref(&a.vc, self.an.fields[i].selfv, self.an.fields[i].parentv)).collect();
+            let n = c.len();
+            (c, n)
+        } else if a.k == "Overwrite" && faults::is_der_class(&a.vc) {
+            // a derived class needs a field for which the walk knows the implied value
+            let c: Vec<usize> = c.into_iter().filter(|&i| faults::has_der(&a.vc, self.an.fields[i].dv)).collect();
             let n = c.len();
             (c, n)
         } else if a.k == "Overwrite" && faults::is_rel_class(&a.vc) {
@@ -582,7 +615,7 @@ fn build_plan(tier: &str, seed: u64, name: &str, an: &Analysis, cases: &Cases, c
                 let trunc = a.k == "Truncate";
                 let rel = faults::is_rel_class(&a.vc);
                 let chosen: Vec<usize> = if a.level == "dir" {
-                    if !trunc && rel {
+                    if !trunc && (rel || faults::is_der_class(&a.vc)) {
                         // the directory records of every input are read by the same code: a seeded sample per input
                         sample(c, if quick { 4 } else { 8 }, &[seed, pl.input_hash, ai as u64, 12])
                     } else if !trunc {
@@ -594,7 +627,7 @@ fn build_plan(tier: &str, seed: u64, name: &str, an: &Analysis, cases: &Cases, c
                 } else if quick {
                     // seeded picks per (role, class); reference classes: up to 12 of the few fields that have
                     // the reference; and everything this input is the champion for
-                    let k = if trunc { 1 } else if faults::is_ref_class(&a.vc) { 12 } else { 2 };
+                    let k = if trunc { 1 } else if faults::is_ref_class(&a.vc) || faults::is_der_class(&a.vc) { 12 } else { 2 };
                     let mut v = sample(c, k, &[seed, pl.input_hash, ai as u64, 8]);
                     // champions: every structural non-value field x every class; every element of an array
                     // (value fields included) x every relational class
@@ -1105,6 +1138,10 @@ fn supervisor(tier: &str, seed: u64, cases: &str, outdir: &str, nworkers: usize)
     // planned single overwrites per table kind and class that change the bytes (computed from the input bytes)
     let mut rel_fields: BTreeMap<String, BTreeMap<String, u64>> = BTreeMap::new();
     let mut rel_planned: BTreeMap<String, BTreeMap<String, u64>> = BTreeMap::new();
+    // derived classes: fields for which the walk knows an implied value, per table kind; planned single overwrites per
+    // table kind and class that change the bytes
+    let mut der_fields: BTreeMap<String, u64> = BTreeMap::new();
+    let mut der_planned: BTreeMap<String, BTreeMap<String, u64>> = BTreeMap::new();
     let kind_of_field = |f: &Field| if f.level == "dir" { "dir".to_string() } else { f.tbl.clone() };
     for (i, s) in specs.iter().enumerate() {
         let an = &analyses[i].2;
@@ -1117,6 +1154,9 @@ fn supervisor(tier: &str, seed: u64, cases: &str, outdir: &str, nworkers: usize)
             }
             if f.level == "table" && f.name != "hook" {
                 *struct_fields.entry(f.tbl.clone()).or_default().entry(f.role.to_string()).or_insert(0) += 1;
+            }
+            if f.dv >= 1 {
+                *der_fields.entry(kind_of_field(f)).or_insert(0) += 1;
             }
             if f.selfv >= 0 || f.parentv >= 0 {
                 *ref_fields.entry(format!("{}:{}:{}", if f.level == "dir" { "dir" } else { f.tbl.as_str() }, f.role, norm_name(&f.name))).or_insert(0) += 1;
@@ -1131,6 +1171,15 @@ fn supervisor(tier: &str, seed: u64, cases: &str, outdir: &str, nworkers: usize)
                     *planned.entry(f.tbl.clone()).or_default().entry(f.role.to_string()).or_insert(0) += 1;
                 }
                 let vc = VCS[vi];
+                if faults::is_der_class(vc) && faults::has_der(vc, f.dv) {
+                    let salt = h(&[seed, hs(&s.name), ji as u64, 0x6060]);
+                    let observed = f.level == "dir" || salt % 16 == 0 || (1..GROUPS.len()).any(|g| an.touched[g].contains("*") || an.touched[g].contains(&f.tbl));
+                    if let Some(old) = faults::rd(&inbuf, f.off, f.w).filter(|_| observed) {
+                        if faults::new_value(vc, old, f.w, inbuf.len() as u64, f.tlen as u64, f.selfv, f.parentv, f.dv, None, None) != old {
+                            *der_planned.entry(kind_of_field(f)).or_default().entry(vc.to_string()).or_insert(0) += 1;
+                        }
+                    }
+                }
                 if faults::is_rel_class(vc) {
                     let (pb, nb) = (faults::sibling(&inbuf, f.prevo, f.w), faults::sibling(&inbuf, f.nexto, f.w));
                     let there = (!faults::is_prev_class(vc) || pb.is_some()) && (!faults::is_next_class(vc) || nb.is_some());
@@ -1138,7 +1187,7 @@ fn supervisor(tier: &str, seed: u64, cases: &str, outdir: &str, nworkers: usize)
                     let salt = h(&[seed, hs(&s.name), ji as u64, 0x6060]);
                     let observed = f.level == "dir" || salt % 16 == 0 || (1..GROUPS.len()).any(|g| an.touched[g].contains("*") || an.touched[g].contains(&f.tbl));
                     if let Some(old) = faults::rd(&inbuf, f.off, f.w).filter(|_| there && observed) {
-                        if faults::new_value(vc, old, f.w, inbuf.len() as u64, f.tlen as u64, f.selfv, f.parentv, pb, nb) != old {
+                        if faults::new_value(vc, old, f.w, inbuf.len() as u64, f.tlen as u64, f.selfv, f.parentv, f.dv, pb, nb) != old {
                             *rel_planned.entry(kind_of_field(f)).or_default().entry(vc.to_string()).or_insert(0) += 1;
                         }
                     }
@@ -1303,6 +1352,9 @@ fn supervisor(tier: &str, seed: u64, cases: &str, outdir: &str, nworkers: usize)
     tot.insert("ref_fields".into(), json!(ref_fields));
     tot.insert("rel_fields_per_table_kind".into(), json!(rel_fields));
     tot.insert("planned_effective_relational_overwrites_per_table_kind".into(), json!(rel_planned));
+    tot.insert("der_fields_per_table_kind".into(), json!(der_fields));
+    tot.insert("planned_effective_derived_overwrites_per_table_kind".into(), json!(der_planned));
+    tot.insert("synthesized_inputs".into(), json!(synth::NAMES.iter().map(|n| (n.to_string(), synth::focus(n).to_vec())).collect::<BTreeMap<_, _>>()));
     tot.insert("champions".into(), json!(champs.iter().map(|(i, c)| (specs[*i].name.clone(), c.iter().map(|(t, n)| (t.clone(), n.len())).collect::<BTreeMap<_, _>>())).collect::<BTreeMap<_, _>>()));
     std::fs::write(format!("{}/inputs.json", outdir), serde_json::to_string(&per_input).unwrap()).unwrap();
     println!("{}", Value::Object(tot));
@@ -1325,7 +1377,7 @@ fn replay(mc: &str, trace: &str, mism: &str) {
             let ov = old.iter().fold(0u64, |a, &b| (a << 8) | b as u64);
             // bytes of the previous / next element: [] = none
             let sib = |k: &str| -> Option<u64> { c[k].as_array().filter(|a| !a.is_empty()).map(|a| a.iter().fold(0u64, |x, b| (x << 8) | b.as_u64().unwrap())) };
-            let nv = faults::new_value(c["vc"].as_str().unwrap(), ov, w, c["flen"].as_u64().unwrap(), c["tlen"].as_u64().unwrap(), c["sv"].as_i64().unwrap_or(-1), c["pv"].as_i64().unwrap_or(-1), sib("pb"), sib("nb"));
+            let nv = faults::new_value(c["vc"].as_str().unwrap(), ov, w, c["flen"].as_u64().unwrap(), c["tlen"].as_u64().unwrap(), c["sv"].as_i64().unwrap_or(-1), c["pv"].as_i64().unwrap_or(-1), c["dv"].as_i64().unwrap_or(-1), sib("pb"), sib("nb"));
             let got: Vec<u64> = (0..w as usize).map(|k| (nv >> (8 * (w as usize - 1 - k))) & 0xff).collect();
             if json!(got) != c["new"] {
                 mw.write(&json!({"what": "value class", "case": c, "got": got}));
@@ -1402,6 +1454,50 @@ fn main() {
                     ev["i"] = json!(2_000_000_000u64 + i);
                     i += 1;
                     println!("{}", ev);
+                }
+            }
+        }
+        Some("probe-synth") => {
+            // the synthesized inputs on the intact bytes: outcome per group, fields per table kind; optional dump directory
+            sup::install_hook();
+            for n in synth::NAMES {
+                if let Some(f) = args.get(2) {
+                    if !n.contains(f.as_str()) {
+                        continue;
+                    }
+                }
+                let bytes = synth::build(n).expect("synth");
+                if let Some(dir) = args.get(3) {
+                    std::fs::write(format!("{}/{}.otf", dir, n.replace('/', "_")), &bytes).unwrap();
+                }
+                let mut line = format!("{:24} {:6}", n, bytes.len());
+                for g in 0..GROUPS.len() {
+                    let o = entry::run_group(g, &bytes);
+                    line += &format!(" {}:{}{}/{}", GROUPS[g], &o.outcome()[..1], o.ok, o.err);
+                    if o.err > 0 {
+                        line += &format!("[{}]", o.first_err);
+                    }
+                    for p in &o.panics {
+                        line += &format!("\n    PANIC {} :: {}", p, sup::panic_site(p));
+                    }
+                }
+                println!("{}", line);
+                let mut w = Walk::new(&bytes);
+                w.file();
+                let mut per: BTreeMap<String, (usize, usize, usize)> = BTreeMap::new();
+                for f in &w.out {
+                    let e = per.entry(f.tbl.clone()).or_default();
+                    e.0 += 1;
+                    e.1 += (f.prevo >= 0 || f.nexto >= 0) as usize;
+                    e.2 += (f.dv >= 0) as usize;
+                }
+                println!("    fields (all / array elements / with implied value): {:?}", per);
+                if args.get(4).is_some() {
+                    for f in &w.out {
+                        if synth::focus(n).contains(&f.tbl.as_str()) {
+                            println!("      {} {} +{} w{} {} dv={} sv={} po={} no={} old={:?}", f.tbl, f.name, f.off - f.tstart, f.w, f.role, f.dv, f.selfv, f.prevo, f.nexto, faults::rd(&bytes, f.off, f.w));
+                        }
+                    }
                 }
             }
         }
